@@ -30,7 +30,9 @@ def opts_for(backend):
         # corpus so that they do not mask anything else; each has a witness under corpus/cxx
         o.enum_arrays = False
         o.struct_arrays = False
-        o.inheritance = False
+        # (inheritance is in: child views are modelled — Pdlv.Cxx.viewBody — and their two recorded defects, KF-C14-child-constraint
+        #  and KF-C14-child-builder, are matched by cause)
+        o.inheritance = True
         o.narrow_counts = True
     if backend == "python":
         pass
